@@ -270,8 +270,10 @@ let () =
   let g = { cfg = None; bals = []; pars = None; infl = []; mint = (H.Z0, H.Z0, H.Z0, H.Z0); time = H.Z0 } in
   let st : H.state option ref = ref None in
   let hist = ref 0 and idx = ref 0 and halted = ref false in
+  (* dom: the history so far lies inside the configuration domain of DESIGN section 5 (Model/Domain.v) *)
+  let dom = ref true in
   let emit kind res (s : H.state option) =
-    let fields = ["h", string_of_int !hist; "i", string_of_int !idx; "op", q kind; "res", q res] in
+    let fields = ["h", string_of_int !hist; "i", string_of_int !idx; "op", q kind; "res", q res; "dom", jb !dom] in
     let fields = match s with
       | Some s -> fields @ ["st", jstate s; "ev", arr (List.map jev s.H.events)]
       | None -> fields @ ["ev", "[]"] in
@@ -283,7 +285,7 @@ let () =
         let toks = Array.of_list (List.filter (fun x -> x <> "") (String.split_on_char ' ' line)) in
         match toks.(0) with
         | "H" ->
-            hist := int_of_string toks.(1); idx := 0; halted := false; st := None;
+            hist := int_of_string toks.(1); idx := 0; halted := false; st := None; dom := true;
             g.cfg <- None; g.bals <- []; g.pars <- None; g.infl <- []; g.time <- H.Z0
         | "G" ->
             (match toks.(1) with
@@ -302,6 +304,7 @@ let () =
                  let gen = { H.g_cfg = Option.get g.cfg; g_balances = g.bals; g_params = Option.get g.pars;
                              g_inflations = g.infl; g_mint = (((a, b), c), d); g_time = g.time } in
                  let s = H.init gen in
+                 if not (H.wf_genesis_b gen) then dom := false;
                  st := Some s; emit "G" "ok" (Some s)
              | _ -> failwith "bad G line")
         | "X" when not !halted ->
@@ -318,6 +321,7 @@ let () =
               | "V" -> H.OGov (List.map (fun (k, v) -> parse_pchange k v) (pairs (List.tl (Array.to_list toks))))
               | "T" -> H.OTx (parse_msg (Array.sub toks 1 (Array.length toks - 1)))
               | _ -> failwith ("bad op " ^ k) in
+            if not (H.wf_op_c03_b s o) then dom := false;
             (match H.step s o with
              | H.OOk s' -> st := Some s'; emit k "ok" (Some s')
              | H.ORejected -> emit k "rej" None
